@@ -73,8 +73,9 @@ type Violation struct {
 func (v *Violation) Key() string { return v.Label + "@" + v.Site }
 
 type WorkItem struct {
-	Prefix []uint64
-	Model  *term.Model
+	Prefix    []uint64
+	Model     *term.Model
+	NeedModel bool
 }
 
 type Config struct {
@@ -91,6 +92,7 @@ type Config struct {
 	Witnesses    int
 	ReverseMaps  bool
 	Verbose      bool
+	OnlyPath     []uint64 // debugging: follow this decision vector only
 }
 
 type PathSummary struct {
@@ -165,21 +167,105 @@ func (mc *modelCache) find(q []*term.T) *term.Model {
 	return nil
 }
 
-// check is the solver entry point for feasibility queries (with model cache).
-func (ex *Exec) check(q []*term.T, wantModel bool) (smt.Result, *term.Model) {
+// check is the solver entry point for feasibility queries "path condition and target".
+// Constraint independence: only the conjuncts of the path condition that (transitively) share a symbol or an
+// uninterpreted function with the target are sent to the solver; the current model, which satisfies the whole
+// path condition, supplies the values of all other symbols.  The combined assignment satisfies pc and target.
+func (ex *Exec) check(target *term.T, wantModel bool) (smt.Result, *term.Model) {
 	if !ex.cfg.Deadline.IsZero() && time.Now().After(ex.cfg.Deadline.Add(5*time.Second)) {
 		panic(pathEnd{kind: endBudget, msg: "wall-clock deadline reached before a solver query"})
 	}
+	var q []*term.T
+	var sliceSyms map[string]struct{}
+	if noSlice {
+		q = append(append([]*term.T(nil), ex.pc...), target)
+	} else {
+		tsyms := map[string]struct{}{}
+		term.CollectSyms(target, map[*term.T]struct{}{}, tsyms)
+		roots := map[string]struct{}{}
+		for s := range tsyms {
+			roots[ex.ufFind(s)] = struct{}{}
+		}
+		sliceSyms = tsyms
+		for i, c := range ex.pc {
+			syms := ex.pcSyms[i]
+			if len(syms) == 0 {
+				continue
+			}
+			if _, ok := roots[ex.ufFind(syms[0])]; ok {
+				q = append(q, c)
+				for _, s := range syms {
+					sliceSyms[s] = struct{}{}
+				}
+			}
+		}
+		q = append(q, target)
+	}
+	combine := func(m *term.Model) *term.Model {
+		if sliceSyms == nil || m == nil {
+			return m
+		}
+		r := ex.model.Clone()
+		for s := range sliceSyms {
+			name := s[2:]
+			if s[0] == 's' {
+				if v, ok := m.Syms[name]; ok {
+					r.Syms[name] = v
+				} else {
+					delete(r.Syms, name)
+				}
+			} else {
+				if t, ok := m.UFs[name]; ok {
+					nt := make(map[string]uint64, len(t))
+					for a, v := range t {
+						nt[a] = v
+					}
+					r.UFs[name] = nt
+				} else {
+					delete(r.UFs, name)
+				}
+			}
+		}
+		return r
+	}
 	if ex.mcache != nil {
 		if m := ex.mcache.find(q); m != nil {
-			return smt.Sat, m
+			return smt.Sat, combine(m)
 		}
 	}
 	r, m := ex.solver.Check(q, wantModel)
-	if r == smt.Sat && ex.mcache != nil {
-		ex.mcache.add(m)
+	if r == smt.Sat {
+		m = combine(m)
+		if ex.mcache != nil {
+			ex.mcache.add(m)
+		}
+		if paranoid {
+			ev := term.NewEvaluator(m.Clone())
+			for i, c := range append(append([]*term.T(nil), ex.pc...), target) {
+				if ev.Eval(c) == 0 {
+					fmt.Printf("PARANOID slice: conjunct %d = %s false under the combined model\n", i, c)
+					panic("paranoid")
+				}
+			}
+		}
 	}
 	return r, m
+}
+
+var noSlice = os.Getenv("VERIF_NOSLICE") != ""
+
+func (ex *Exec) ufFind(s string) string {
+	for {
+		p, ok := ex.ufParent[s]
+		if !ok || p == s {
+			return s
+		}
+		gp, ok2 := ex.ufParent[p]
+		if ok2 && gp != p {
+			ex.ufParent[s] = gp
+		}
+		s = p
+	}
 }
 
 type Exec struct {
@@ -191,6 +277,8 @@ type Exec struct {
 	pos       int
 	decisions []uint64
 	pc        []*term.T
+	pcSyms    [][]string
+	ufParent  map[string]string
 	model     *term.Model
 	ev        *term.Evaluator
 	forks     []WorkItem
@@ -215,6 +303,7 @@ type Exec struct {
 	race      *raceState
 	deferFrame []*frame
 	lockHook  func(name string, recv Value)
+	needModel bool
 }
 
 func (ex *Exec) freshName(base string) string {
@@ -350,6 +439,23 @@ func (ex *Exec) known(c *term.T) (bool, bool) {
 func (ex *Exec) addPC(c *term.T) {
 	ex.pc = append(ex.pc, c)
 	ex.learn(c, true)
+	set := map[string]struct{}{}
+	term.CollectSyms(c, map[*term.T]struct{}{}, set)
+	syms := make([]string, 0, len(set))
+	for s := range set {
+		syms = append(syms, s)
+	}
+	sort.Strings(syms)
+	ex.pcSyms = append(ex.pcSyms, syms)
+	if len(syms) > 0 {
+		r0 := ex.ufFind(syms[0])
+		for _, s := range syms[1:] {
+			r := ex.ufFind(s)
+			if r != r0 {
+				ex.ufParent[r] = r0
+			}
+		}
+	}
 }
 
 var traceQ = os.Getenv("VERIF_TRACEQ") != ""
@@ -368,11 +474,25 @@ func (ex *Exec) checkInv(where string) {
 	}
 }
 
+// ensureModel obtains a model of the path condition when a path was started from a bare decision vector.
+func (ex *Exec) ensureModel() {
+	if !ex.needModel || ex.pos < len(ex.prefix) {
+		return
+	}
+	ex.needModel = false
+	r, m := ex.solver.Check(append([]*term.T(nil), ex.pc...), true)
+	if r != smt.Sat {
+		panic(pathEnd{kind: endUnknown, msg: "cannot obtain a model for the given decision vector"})
+	}
+	ex.setModel(m)
+}
+
 // Branch decides a symbolic condition, forking the exploration.
 func (ex *Exec) Branch(c *term.T) bool {
 	if c.IsConst() {
 		return c.C != 0
 	}
+	ex.ensureModel()
 	if v, ok := ex.known(c); ok {
 		return v
 	}
@@ -395,8 +515,7 @@ func (ex *Exec) Branch(c *term.T) bool {
 	} else {
 		other = c
 	}
-	q := append(append([]*term.T(nil), ex.pc...), other)
-	r, m := ex.check(q, true)
+	r, m := ex.check(other, true)
 	if traceQ {
 		fmt.Printf("Q branch %-5s %s  @%s\n", r, other, ex.site())
 	}
@@ -453,6 +572,7 @@ func (ex *Exec) Assume(c *term.T) {
 		return
 	}
 	defer ex.checkInv("assume")
+	ex.ensureModel()
 	if v, ok := ex.known(c); ok {
 		if !v {
 			panic(pathEnd{kind: endInfeasible})
@@ -463,8 +583,7 @@ func (ex *Exec) Assume(c *term.T) {
 		ex.addPC(c)
 		return
 	}
-	q := append(append([]*term.T(nil), ex.pc...), c)
-	r, m := ex.check(q, true)
+	r, m := ex.check(c, true)
 	switch r {
 	case smt.Sat:
 		ex.addPC(c)
@@ -561,6 +680,7 @@ func (ex *Exec) report(label, site, msg string, m *term.Model) {
 // Assert checks an obligation under the current path condition.
 func (ex *Exec) Assert(c *term.T, label string) {
 	ex.hits[label]++
+	ex.ensureModel()
 	if c.IsConst() {
 		if c.C != 0 {
 			ex.proved[label]++
@@ -576,8 +696,7 @@ func (ex *Exec) Assert(c *term.T, label string) {
 	if !ex.evalBool(c) {
 		ex.report(label, ex.repoSite(), "assertion violated: "+c.String(), ex.model.Clone())
 	} else {
-		q := append(append([]*term.T(nil), ex.pc...), term.BNot(c))
-		r, m := ex.check(q, true)
+		r, m := ex.check(term.BNot(c), true)
 		if traceQ {
 			fmt.Printf("Q assert %-5s %s  [%s]\n", r, c, label)
 		}
@@ -612,6 +731,9 @@ func Explore(p *Program, cfg *Config) *Result {
 	e := &Explorer{P: p, cfg: cfg, res: &Result{Harness: cfg.Harness, Hits: map[string]int{}, Proved: map[string]int{}, Funcs: map[string]int64{}}, seen: map[string]bool{}}
 	e.cond = sync.NewCond(&e.mu)
 	e.work = []WorkItem{{Prefix: nil, Model: term.NewModel()}}
+	if cfg.OnlyPath != nil {
+		e.work = []WorkItem{{Prefix: cfg.OnlyPath, Model: term.NewModel(), NeedModel: true}}
+	}
 	t0 := time.Now()
 	w := cfg.Workers
 	if w < 1 {
@@ -727,16 +849,18 @@ func (e *Explorer) merge(ex *Exec) {
 	for _, s := range ex.inconc {
 		r.Inconclusive = appendUniq(r.Inconclusive, s)
 	}
-	e.work = append(e.work, ex.forks...)
+	if e.cfg.OnlyPath == nil {
+		e.work = append(e.work, ex.forks...)
+	}
 	if ex.sample != "" && len(r.Samples) < 8 {
 		r.Samples = append(r.Samples, ex.sample)
 	}
 }
 
 func (e *Explorer) runPath(solver *smt.Portfolio, mc *modelCache, it WorkItem) (ex *Exec) {
-	ex = &Exec{mcache: mc, P: e.P, cfg: e.cfg, solver: solver, prefix: it.Prefix,
+	ex = &Exec{needModel: it.NeedModel, mcache: mc, P: e.P, cfg: e.cfg, solver: solver, prefix: it.Prefix,
 		globals: map[*ssa.Global]*Value{}, initDone: map[*ssa.Package]bool{}, fresh: map[string]int{},
-		hits: map[string]int{}, proved: map[string]int{}, funcs: map[string]int64{}, facts: map[uint64][]fact{}}
+		hits: map[string]int{}, proved: map[string]int{}, funcs: map[string]int64{}, facts: map[uint64][]fact{}, ufParent: map[string]string{}}
 	ex.setModel(it.Model)
 	ex.env.init()
 	end := "return"
